@@ -25,6 +25,14 @@
                Writing m     first bytes of the response handed to the socket
                Written       a marked response completely written (handle returns errClose)
                Broken        a write of the response failed (client gone): handle returns errClose
+               CDecided      CONNECT exchange (handleConnectRequest): the response modifier returned; there is
+                             no close decision on this path: whether the head carries Connection: close does
+                             not depend on shutdown (Go marks the length-less 200 of a blind tunnel, not the
+                             MITM 200 nor the 502)
+               CWriting      first bytes of the CONNECT response handed to the socket
+               Tunnel        CONNECT response written: bytes are relayed (blind tunnel), or the proxy waits
+                             for the TLS hello (MITM), or for the next request (after a 502); the handler
+                             leaves this phase by closing the connection
                SockClosed    deferred conn.Close() done
                Finished      deferred conns.Done() done
      late      ghost: the connection was accepted when closing was already signalled
@@ -39,7 +47,8 @@ Inductive phase :=
 | Accepted | Registered | Idle | HeadPartial
 | InReqMod | InRoundTrip | InResMod | PreDecide
 | Decided (m : bool) | Writing (m : bool) | Written
-| SockClosed | Finished | Broken.
+| SockClosed | Finished | Broken
+| CDecided | CWriting | Tunnel.
 
 Inductive cstate := NotCalled | Called | Signalled | Locked | Returned.
 
@@ -71,6 +80,7 @@ Inductive clabel :=
 | RespStatus (f : bool)(* observation: the head about to be written is the synthesized 502 (f) or not *)
 | WriteFail           (* a socket write of the response returned an error *)
 | CliGone             (* observation: the client closed its side *)
+| CResModEnd          (* resmod about to return for a CONNECT exchange (handleConnectRequest) *)
 | RTBroken.           (* observation: the round trip towards a REACHABLE origin failed (or did not
                          deliver the complete request body): the client will get a proxy-made 502
                          in place of the origin's response *)
@@ -107,6 +117,12 @@ Definition cstep (cl lk : bool) (p : phase) (k : clabel) : option phase :=
   | RespStatus _, Decided m => Some (Decided m)
   | WriteFail, Writing _ => Some Broken
   | SockClose, Broken => Some SockClosed
+  | CResModEnd, InResMod => Some CDecided
+  | RespStatus _, CDecided => Some CDecided
+  | WriteHead _, CDecided => Some CWriting
+  | WriteDone, CWriting => Some Tunnel
+  | WriteFail, CWriting => Some Broken
+  | SockClose, Tunnel => Some SockClosed
   | CliGone, p => Some p
   | ResModEnd, InResMod => Some PreDecide
   | Decide, PreDecide => Some (Decided cl)
@@ -186,7 +202,8 @@ Definition phase_eqb (a b : phase) : bool :=
   match a, b with
   | Accepted, Accepted | Registered, Registered | Idle, Idle | HeadPartial, HeadPartial
   | InReqMod, InReqMod | InRoundTrip, InRoundTrip | InResMod, InResMod | PreDecide, PreDecide
-  | Written, Written | SockClosed, SockClosed | Finished, Finished | Broken, Broken => true
+  | Written, Written | SockClosed, SockClosed | Finished, Finished | Broken, Broken
+  | CDecided, CDecided | CWriting, CWriting | Tunnel, Tunnel => true
   | Decided m, Decided m' => Bool.eqb m m'
   | Writing m, Writing m' => Bool.eqb m m'
   | _, _ => false
@@ -328,7 +345,8 @@ Definition is_conn (c : nat) (k : clabel) (l : label) : bool :=
       | Register, Register | Enter, Enter | HeadPart, HeadPart | ReqModStart, ReqModStart
       | RTStart, RTStart | ResModStart, ResModStart | ResModEnd, ResModEnd | Decide, Decide
       | WriteDone, WriteDone | SockClose, SockClose | Done, Done
-      | WriteFail, WriteFail | CliGone, CliGone | RTBroken, RTBroken => true
+      | WriteFail, WriteFail | CliGone, CliGone | RTBroken, RTBroken
+      | CResModEnd, CResModEnd => true
       | WriteHead m, WriteHead m' => Bool.eqb m m'
       | RTEnd m, RTEnd m' => Bool.eqb m m'
       | RespStatus m, RespStatus m' => Bool.eqb m m'
@@ -549,6 +567,7 @@ Definition phase_rank (p : phase) : nat :=
   | Accepted => 13 | Registered => 12 | InReqMod => 11 | InRoundTrip => 10
   | InResMod => 9 | PreDecide => 8 | Decided _ => 7 | Writing _ => 6 | Written => 5
   | Idle => 4 | HeadPartial => 3 | SockClosed => 2 | Finished => 0 | Broken => 5
+  | CDecided => 7 | CWriting => 6 | Tunnel => 3
   end.
 
 Definition cs_rank (c : cstate) : nat :=
